@@ -232,11 +232,13 @@ def check_c06(tier, seed):
     rng = random.Random(seed * 1000 + 6)
     compilers = ['g++'] if tier == 'quick' else ['g++', 'clang++-14']
     models = special_models()
-    n = 3 if tier == 'quick' else 24
+    n = 5 if tier == 'quick' else 30
     k = 0
     while len(models) < n + 2 and k < 10 * n:
         k += 1
-        decls, cfg, _ = gen_model(rng, want_mc=(k % 2 == 0), clash=(k % 3 == 0))
+        decls, cfg, _ = gen_model(rng, want_mc=(k % 2 == 0), clash=(k % 3 == 0), nports=(3 if k % 2 == 0 else None))
+        if k % 2 == 0 and sum(1 for p in decls[-1]['ports'] if p['dir'] == 'provides') < 2:
+            continue                     # a multi-client port next to another provides port
         models.append((f'random{k}', decls, cfg))
     for name, decls, cfg in models:
         check_model(chk, name, decls, cfg, tier, rng, compilers)
